@@ -110,6 +110,13 @@ thread_local! {
     static SENT0: std::cell::RefCell<Option<Sentinel0>> = const { std::cell::RefCell::new(None) };
 }
 
+static STASH: Mutex<Vec<std::thread::JoinHandle<()>>> = Mutex::new(Vec::new());
+
+/// OS threads of finished extra parent threads, joined by the runner after the run.
+pub fn stash_handles(v: Vec<std::thread::JoinHandle<()>>) {
+    STASH.lock().unwrap().extend(v);
+}
+
 pub fn run_plan(plan: &Plan, replay: Option<Vec<u32>>) -> RunResult {
     set_parent_env(plan);
     let k = build_kernel(plan);
@@ -152,6 +159,10 @@ pub fn run_plan(plan: &Plan, replay: Option<Vec<u32>>) -> RunResult {
         })
         .expect("spawn workload thread");
     let _ = h.join();
+    let extra: Vec<_> = STASH.lock().unwrap().drain(..).collect();
+    for e in extra {
+        let _ = e.join();
+    }
     let mut s = uninstall();
     let fo = out.lock().unwrap().take().unwrap_or_default();
     post_checks(&mut s, plan);
